@@ -37,6 +37,20 @@ Theorem C09_scalar_meaning : forall (pubk : Z -> Z) (ecdh : Z -> Z -> Z) (p : pr
          (owned_idx sec (ps_out ps) 0) bl.
 Proof. exact scalar_meaning. Qed.
 
+(* beyond the limit a non-last blinder that has an output to blind (and three scalars to draw) is refused at its first output:
+   the surjection targets are collected, then Asset::blind returns Upstream(CannotProveSurjection) — so the premise on the
+   surjection domain in the two theorems around this one cannot be dropped *)
+Theorem C09_domain_limit_non_last : forall (pubk : Z -> Z) (ecdh : Z -> Z -> Z) (p : profile)
+  (ins : list pin) (SS : list secrets) (utxos : list txout),
+  Forall3 in_ok ins SS utxos -> issuances_unblinded ins ->
+  (CT_SURJECTIONPROOF_MAX_N_INPUTS < N.of_nat (length (all_ss ins SS)))%N ->
+  forall ps sec rnd, ps_in ps = ins -> sec_ok SS sec -> indices_ok (length ins) (ps_out ps) ->
+  (forall i, In i (owned_idx sec (ps_out ps) 0) -> exists o, nth_error (ps_out ps) i = Some o /\ pgood (party_tg ins sec) o) ->
+  (3 <= length rnd)%nat ->
+  forall i0 rest, owned_idx sec (ps_out ps) 0 = i0 :: rest ->
+  blind_non_last pubk ecdh p ps sec rnd = OFail (PConfidentialTxOutError i0 BCannotProveSurjection).
+Proof. exact non_last_over_limit. Qed.
+
 (* a valid assignment (`flow_ok`: parties own disjoint inputs covering all inputs with their true secrets, every output is explicit
    or assigned to exactly one party that can blind it, every party has an output, amounts balance per asset, enough randomness)
    on a PSET whose surjection domain is within the limit of Asset::blind:
@@ -163,4 +177,5 @@ Check (C09_any_order : forall (pubk : Z -> Z) (ecdh : Z -> Z -> Z) (p : profile)
                  /\ po_bvp o = Some bvp /\ po_bap o = Some bap /\ blind_value_proof_verify bvp v g c = true /\ blind_asset_proof_verify bap a g = true)).
 Print Assumptions C09_party_domain_size.
 Print Assumptions C09_scalar_meaning.
+Print Assumptions C09_domain_limit_non_last.
 Print Assumptions C09_any_order.
